@@ -172,7 +172,9 @@ Definition decode (cd : codec) (b : bytes) : res text :=
   | CUtf8 => if valid_utf8 b then Ok b else Err "UnicodeDecodeError"
   | CLatin1 => Ok (latin1_dec b)
   | COther => Unmodelled
-  | CUnknown => Err "LookupError"
+  | CUnknown =>
+      (* CPython returns "" for empty bytes without looking the codec up *)
+      match b with [] => Ok [] | _ => Err "LookupError" end
   end.
 (* str.encode(encoding) *)
 Definition encode (cd : codec) (t : text) : res bytes :=
@@ -357,22 +359,25 @@ Fixpoint import_extra (ex : list (bytes * bytes)) : res (text * bool) :=
       else bind (import_extra r) (fun lu => Ok (fst lu, true))
   end.
 
-(* decode_using_encoding: (committer, author property, message) *)
-Definition decode_using (cd : codec) (c : commit) : res (text * option text * option text) :=
-  bind (decode cd (c_committer c)) (fun tc =>
-  bind (if bytes_eqb (c_committer c) (c_author c) then Ok None
-        else bind (decode cd (c_author c)) (fun a => Ok (Some a))) (fun ta =>
-  bind (match c_message c with
-        | None => Ok None
-        | Some m => bind (decode cd m) (fun t => Ok (Some t))
-        end) (fun tm =>
-  Ok (tc, ta, tm)))).
-
+(* except LookupError as err: raise UnknownCommitEncoding(encoding) from err *)
 Definition lookup_to_commit_encoding {A} (r : res A) : res A :=
   match r with
   | Err e => if String.eqb e "LookupError" then Err "UnknownCommitEncoding" else Err e
   | _ => r
   end.
+
+(* decode_using_encoding: (committer, author property, message) *)
+Definition decode_using (cd : codec) (c : commit) : res (text * option text * option text) :=
+  bind (lookup_to_commit_encoding (decode cd (c_committer c))) (fun tc =>
+  bind (if bytes_eqb (c_committer c) (c_author c) then Ok None
+        else bind (lookup_to_commit_encoding (decode cd (c_author c)))
+                  (fun a => Ok (Some a))) (fun ta =>
+  (* _decode_commit_message is outside the try: a LookupError escapes as such *)
+  bind (match c_message c with
+        | None => Ok None
+        | Some m => bind (decode cd m) (fun t => Ok (Some t))
+        end) (fun tm =>
+  Ok (tc, ta, tm)))).
 
 Definition is_ude {A} (r : res A) : bool :=
   match r with Err e => String.eqb e "UnicodeDecodeError" | _ => false end.
@@ -399,8 +404,7 @@ Definition import_texts (env : bytes -> codec) (c : commit)
   bind (match c_encoding c with
         | Some e =>
             if bytes_eqb e (bs "false") then decode_implicit c
-            else bind (lookup_to_commit_encoding (decode_using (lookup env e) c))
-                      (fun d => Ok (d, None))
+            else bind (decode_using (lookup env e) c) (fun d => Ok (d, None))
         | None => decode_implicit c
         end) (fun di => Ok (explicit, snd di, fst di))).
 
@@ -604,3 +608,41 @@ Definition norm (c : commit) : commit :=
      c_commit_neg := c_commit_neg c;
      c_encoding := c_encoding c; c_mergetag := c_mergetag c; c_extra := c_extra c;
      c_gpgsig := truthy (c_gpgsig c); c_message := c_message c |}.
+
+(* ---------- roundtrip.py: extract_bzr_metadata (used by BzrGitMappingExperimental only) ----------
+   message.split(b"\n--BZR--\n", 1): the text before the first marker and the text after it *)
+Definition BZR_MARK : bytes := NL :: bs "--BZR--" ++ [NL].
+Fixpoint bzr_split (m : bytes) : option (bytes * bytes) :=
+  if prefixb BZR_MARK m then Some ([], skipn 9 m)
+  else match m with
+       | [] => None
+       | b :: r => match bzr_split r with
+                   | Some (h, t) => Some (b :: h, t)
+                   | None => None
+                   end
+       end.
+(* (message returned, was a metadata block split off) *)
+Definition extract_msg (m : bytes) : bytes * bool :=
+  match bzr_split m with Some (h, _) => (h, true) | None => (m, false) end.
+
+(* parse_roundtripping_metadata raises ValueError unless every line (BytesIO.readlines) is
+   "key:value" with key revision-id | parent-ids | testament3-sha1 | property-* *)
+Definition meta_key_ok (k : bytes) : bool :=
+  bytes_eqb k (bs "revision-id") || bytes_eqb k (bs "parent-ids")
+  || bytes_eqb k (bs "testament3-sha1") || prefixb (bs "property-") k.
+Definition meta_line_ok (l : bytes) : bool :=
+  match break_at 58 l with Some (k, _) => meta_key_ok k | None => false end.
+Fixpoint drop_last_empty (ls : list bytes) : list bytes :=
+  match ls with
+  | [] => []
+  | [l] => match l with [] => [] | _ => [l] end
+  | l :: r => l :: drop_last_empty r
+  end.
+Definition meta_valid (t : bytes) : bool :=
+  forallb meta_line_ok (drop_last_empty (split1 NL t)).
+
+Definition run_meta (m : bytes) : obs :=
+  match bzr_split m with
+  | None => OL [OB m; obool false]
+  | Some (h, t) => if meta_valid t then OL [OB h; obool true] else OE "ValueError"
+  end.
